@@ -16,7 +16,7 @@ ASSUMPTIONS = [LEVEL_NOTE, "HOME is empty"]
 
 
 def plan(tier):
-    return {"n": 250 if tier == "quick" else 3000, "floor": 60 if tier == "quick" else 800}
+    return {"n": 250 if tier == "quick" else 1000, "floor": 60 if tier == "quick" else 266}
 
 
 def rule(tier):
